@@ -327,20 +327,31 @@ def closure_label_inserts(F):
     labels = arm_labels(f)
     out = []
     seen = {f.short, "compiler::Compiler::compile_subexpr"}
-    work = [(f, [x for x in hir_walk(f.hir["body"]) if labels.get(id(x)) == "Closure"])]
+    # work items: (function, its nodes, the call that entered it: (caller function, call node) | None)
+    work = [(f, [x for x in hir_walk(f.hir["body"]) if labels.get(id(x)) == "Closure"], None)]
     while work:
-        g, nodes = work.pop(0)
+        g, nodes, via = work.pop(0)
         for x in nodes:
             if x.get("k") == "mcall" and x["name"] == "insert":
                 fc = hu.field_chain(x["recv"])
                 if fc and fc[1][-2:] == ["labels", "0"]:
-                    out.append((g, x))
+                    kf, key = g, x["args"][0]
+                    # the key is a parameter of a helper (`label_next_instruction(handle)`): it stands for the argument of the
+                    # call through which the Closure arm reached the helper
+                    lid = hir_local_id(hu.strip_all(key))
+                    if via is not None and lid is not None and not hu.let_inits(g).get(lid):
+                        cf, cn = via
+                        args = ([cn["recv"]] if cn.get("k") == "mcall" else []) + list(cn["args"])
+                        for a_, p_ in zip(args, g.hir.get("params", [])):
+                            if p_.get("k") == "bind" and p_["id"] == lid:
+                                kf, key = cf, a_
+                    out.append((kf, x, key))
             if x.get("k") in ("call", "mcall"):
                 for n in hir_callee(x):
                     h = F.fn(n, required=False)
                     if h is not None and h.hir is not None and not h.is_closure and n.startswith("compiler::Compiler::") and n not in seen:
                         seen.add(n)
-                        work.append((h, list(hir_walk(h.hir["body"]))))
+                        work.append((h, list(hir_walk(h.hir["body"])), (g, x)))
     if not out:
         raise AnchorMissing("label insertion in the Closure arm of process_card")
     return out
@@ -350,8 +361,8 @@ def rule_l(F):
     res = []
     inserts = closure_label_inserts(F)
     local, _sp, _hp = function_index_is_module_local(F)
-    for n, (f, x) in enumerate(inserts):
-        lv = expr_leaves(f, x["args"][0])
+    for n, (f, x, key_expr) in enumerate(inserts):
+        lv = expr_leaves(f, key_expr)
         key = "C06/L/process_card[Closure]/label-key-is-program-unique"
         wide = [l for l in lv if any(w in l for w in ("handle", "namespace", "current_function", "function_handle", "next_closure"))
                 and "current_index" not in l]
@@ -907,6 +918,20 @@ def xor_leaves(F, f, e, depth=0, seen=None):
             pf = _param_field_binding(f, r["id"])
             if pf is not None:
                 return _field_sources(F, pf[0], pf[1], depth, seen)
+            # a plain parameter: what the callers pass for it
+            ppos = [k_ for k_, p_ in enumerate(f.hir.get("params", [])) if p_.get("k") == "bind" and p_.get("id") == r["id"]]
+            if ppos and not inits and not f.is_closure:
+                out = []
+                for g in F.fns:
+                    if g.hir is None or g.raw.get("from_expansion"):
+                        continue
+                    for y in hir_walk(g.hir["body"]):
+                        if y.get("k") in ("call", "mcall") and f.short in hir_callee(y):
+                            args = ([y["recv"]] if y.get("k") == "mcall" else []) + list(y["args"])
+                            if ppos[0] < len(args):
+                                out += xor_leaves(F, g, args[ppos[0]], depth + 1, seen)
+                if out:
+                    return out
             return [("opaque", False, "local " + r["name"])]
         if _is_const_expr(e):
             return [("const", True, "const")]
@@ -948,9 +973,9 @@ def _field_sources(F, owner, field, depth, seen):
 def rule_x(F):
     res = []
     inserts = closure_label_inserts(F)
-    for f, x in inserts:
+    for f, x, key_expr in inserts:
         key = "C06/X/process_card[Closure]/label-components-cannot-cancel"
-        lv = xor_leaves(F, f, x["args"][0])
+        lv = xor_leaves(F, f, key_expr)
         groups = {}
         for kind, const, desc in lv:
             if kind not in ("opaque", "const") and not const:
